@@ -489,6 +489,16 @@ func (p *vfC17MPoller) due() bool {
 // good. A completion signal in the negative, not a timing verdict. Goroutines of brokers of earlier
 // cases can only make the count larger (no proof). "" = no proof.
 func (r *vfC17MRig) orphanProof() string {
+	proof, whyNot := r.orphanProof2()
+	if proof == "" {
+		r.mu.Lock()
+		r.logf("no proof of an orphaned registry entry: %s", whyNot)
+		r.mu.Unlock()
+	}
+	return proof
+}
+
+func (r *vfC17MRig) orphanProof2() (string, string) {
 	var buf []byte
 	for size := 1 << 20; ; size *= 8 {
 		buf = make([]byte, size)
@@ -509,13 +519,17 @@ func (r *vfC17MRig) orphanProof() string {
 			switch {
 			case strings.Contains(l, "/mqttproxy.(*Broker).handleConn("):
 				isConn = true
+			case strings.Contains(l, "/mqttproxy.(*mockStorage).delete") && strings.Contains(lines[0], "[chan send"):
+				// a notification nobody has taken yet. Not this broker's: its watcher (checked below) waits
+				// with nothing to receive, so this sender sits on the channel of a store whose broker is
+				// gone (the in-memory store leaks such senders)
 			case strings.Contains(l, "/mqttproxy.(*Broker).deleteSession("), strings.Contains(l, "/mqttproxy.(*mockStorage).delete"), strings.Contains(l, "/mqttproxy.(*Broker).reconnectWatcher("):
-				return "" // a delete notification is on its way
+				return "", "delete notification on its way: " + l
 			case strings.Contains(l, "/mqttproxy.(*Broker).watchDelete(") && !waiting:
-				return "" // the watcher has something to do
+				return "", "watcher busy: " + lines[0]
 			case strings.Contains(l, "/mqttproxy.(*Client).close("), strings.Contains(l, "/mqttproxy.(*Client).closeAndDelSession("):
 				if !isConn {
-					return "" // a teardown running outside a connection goroutine (takeover, writer)
+					return "", "teardown outside a connection goroutine: " + l
 				}
 			}
 		}
@@ -525,14 +539,14 @@ func (r *vfC17MRig) orphanProof() string {
 	}
 	reg := r.reg.ids() // after the snapshot: entries only go away while the harness does nothing
 	if conns >= len(reg) {
-		return ""
+		return "", fmt.Sprintf("%d connection goroutines, %d registry entries", conns, len(reg))
 	}
 	ids := make([]string, 0, len(reg))
 	for id := range reg {
 		ids = append(ids, id)
 	}
 	sort.Strings(ids)
-	return fmt.Sprintf("broker registry lists %d clients %v but only %d connection goroutines (Broker.handleConn) exist in the whole process, and no session-delete notification is running or pending", len(reg), ids, conns)
+	return fmt.Sprintf("broker registry lists %d clients %v but only %d connection goroutines (Broker.handleConn) exist in the whole process, and no session-delete notification is running or pending", len(reg), ids, conns), ""
 }
 
 type vfC17MOp struct {
